@@ -123,7 +123,19 @@ func (e *Engine) verifyBlock(blk *Block) (u *Unit) {
 	}
 	c.addObl(&Obligation{Name: name + "/cover-pre", Kind: "cover-pre", Fn: name, Pos: e.ld.Prog.Fset.Position(fn.Pos()), Text: "preconditions and type invariants are satisfiable", Reach: st.Reach, Goal: TTrue, Expect: "sat"})
 	f.entry = st.clone()
+	for _, ac := range blk.At {
+		if ac.AnchorLine == 0 {
+			u.Err = "contract-target-changed: anchor \"" + ac.Anchor + "\" not found in " + name
+			return u
+		}
+	}
 	f.run(st)
+	for _, ac := range blk.At {
+		if !f.atDone[ac] {
+			u.Err = "contract-target-changed: ghost statement at \"" + ac.Anchor + "\" was never reached"
+			return u
+		}
+	}
 	// postconditions at every return
 	for ri, r := range f.rets {
 		var resVals [][]Term
